@@ -169,3 +169,311 @@ Proof.
     cbv beta iota in H2. cbn [fst] in H2.
     destruct (while fuel _ _ (b, (k2, n2))) as [[y [k' n']]|e2]; cbn [bind fst]; rewrite H2; reflexivity.
 Qed.
+
+(* ---- FFCDHKey.unpack / ECDHKey.unpack ---- *)
+Lemma length_slice_window {A} (l : list A) a n : 0 <= a -> 0 <= n ->
+  (length (slice (Some a) (Some (a + n)%Z) l) <= Z.to_nat n)%nat.
+Proof.
+  intros Ha Hn. unfold slice, norm. rewrite firstn_length.
+  destruct (a <? 0) eqn:E1; [lia|]. destruct (a + n <? 0) eqn:E2; lia.
+Qed.
+Lemma le_val_nonneg l : wfb l = true -> 0 <= le_val l.
+Proof. intros H. pose proof (le_val_range l H). lia. Qed.
+
+Lemma FFCDHKey_unpack_safe data :
+  SafeP (fun k => wfb data = true -> 0 <= ffk_key_length k /\ 0 <= ffk_field_order k < P (Z.to_nat (ffk_key_length k)))
+        (FFCDHKey_unpack data).
+Proof.
+  unfold FFCDHKey_unpack. destruct (negb (beqb _ c_FFCDH_KEY_MAGIC)); [reflexivity|].
+  cbn [SafeP ffk_key_length ffk_field_order]. intros Hw.
+  set (kl := le_val (slice (Some 4) (Some 8) data)).
+  assert (Hkl : 0 <= kl) by (apply le_val_nonneg, wfb_slice, Hw). split; [assumption|].
+  pose proof (be_val_range (slice (Some 8) (Some (8 + kl)) data) (wfb_slice _ _ _ Hw)) as Hr.
+  pose proof (P_mono _ _ (length_slice_window data 8 kl ltac:(lia) Hkl)). lia.
+Qed.
+Lemma ECDHKey_unpack_safe data :
+  SafeP (fun k => exists cv, curve_and_hash k = Ok (cv, curve_hash cv)) (ECDHKey_unpack data).
+Proof.
+  unfold ECDHKey_unpack. destruct (curve_of_id _) as [cv|]; [|reflexivity].
+  cbn [SafeP]. exists cv. unfold curve_and_hash. cbn [eck_curve_name]. destruct cv; reflexivity.
+Qed.
+
+(* ---- pow(b, e, m) and the fixed-width big-endian encoding of the shared secret ---- *)
+Lemma modpow_range_all b e m : 0 < m -> 0 <= modpow b e m < m.
+Proof.
+  intros Hm. destruct e as [|e|e]; cbn [modpow].
+  - apply Z.mod_pos_bound, Hm.
+  - rewrite powmod_pos_spec by assumption. apply Z.mod_pos_bound, Hm.
+  - lia.
+Qed.
+Lemma py_pow3_safe b e m : 0 <= m -> SafeP (fun v => 0 <= v < m) (py_pow3 b e m).
+Proof. intros Hm. unfold py_pow3. destruct (m =? 0) eqn:E; [reflexivity|]. apply modpow_range_all. lia. Qed.
+Lemma to_bytes_be_z_safe n v : 0 <= v < P (Z.to_nat n) -> Safe (to_bytes_be_z n v).
+Proof.
+  intros H. unfold to_bytes_be_z. destruct (n <? 0); [reflexivity|]. unfold to_bytes_be.
+  destruct (_ && _) eqn:E; [exact I|lia].
+Qed.
+
+Lemma utf16le_encode_safe s : Safe (utf16le_encode s).
+Proof.
+  induction s as [|ch s IH]; cbn [utf16le_encode]; [exact I|].
+  apply Safe_bind.
+  - unfold utf16_cp. destruct (negb (scalar ch)); [reflexivity|]. destruct (ch <? 65536); exact I.
+  - intros a. apply Safe_bind; [exact IH|]. intros; exact I.
+Qed.
+Lemma encode_utf16z_safe s : Safe (encode_utf16z s).
+Proof. apply utf16le_encode_safe. Qed.
+
+Section WithCrypto.
+Context (c : Crypto) (Hc : CryptoLaws c).
+
+Lemma ec_dh_safe cv d Q : Safe (ec_dh c cv d Q).
+Proof. destruct (ec_dh c cv d Q) eqn:E; [exact I|]. now rewrite (ec_dh_errors c Hc _ _ _ _ E). Qed.
+Lemma kw_unwrap_safe k w : Safe (kw_unwrap c k w).
+Proof. destruct (kw_unwrap c k w) eqn:E; [exact I|]. destruct (kw_unwrap_errors c Hc _ _ _ E); subst; reflexivity. Qed.
+Lemma gcm_dec_safe k n ct : Safe (gcm_dec c k n ct).
+Proof. destruct (gcm_dec c k n ct) eqn:E; [exact I|]. destruct (gcm_dec_errors c Hc _ _ _ _ E); subst; reflexivity. Qed.
+
+(* ---- compute_kek: the public key is attacker-supplied bytes ---- *)
+Lemma compute_kek_safe alg sa sp priv pub : wfb pub = true -> Safe (compute_kek c alg sa sp priv pub).
+Proof.
+  intros Hw. unfold compute_kek. apply Safe_bind; [|intros [? ?]; exact I].
+  destruct (Gkdi.str_eqb sa STR_DH).
+  - apply SafeP_Safe with (Q := fun _ => True).
+    eapply SafeP_bind; [apply (FFCDHKey_unpack_safe pub)|]. cbv beta. intros k Hk. destruct (Hk Hw) as [Hkl Hfo].
+    eapply SafeP_bind; [apply (py_pow3_safe (ffk_public_key k) (be_val priv) (ffk_field_order k)); lia|]. cbv beta.
+    intros v Hv. eapply SafeP_bind with (Q := fun _ => True); [apply Safe_SafeP, to_bytes_be_z_safe; lia|].
+    intros; exact I.
+  - destruct (startswith sa STR_ECDH_P); [|reflexivity].
+    apply SafeP_Safe with (Q := fun _ => True).
+    eapply SafeP_bind; [apply (ECDHKey_unpack_safe pub)|]. cbv beta. intros k [cv Hcv]. rewrite Hcv. cbn [bind].
+    eapply SafeP_bind with (Q := fun _ => True); [apply Safe_SafeP, ec_dh_safe|]. intros; exact I.
+Qed.
+Lemma compute_kek_from_public_key_safe alg seed sa sp pub plen : wfb pub = true ->
+  Safe (compute_kek_from_public_key c alg seed sa sp pub plen).
+Proof.
+  intros Hw. unfold compute_kek_from_public_key. apply Safe_bind; [apply encode_utf16z_safe|]. intros ctx.
+  now apply compute_kek_safe.
+Qed.
+
+(* ---- GroupKeyEnvelope.get_kek ---- *)
+Definition env_ok (e : envelope) : Prop := gke_l1 e <= 31 /\ gke_l2 e <= 31.
+Lemma envelope_hash_safe e : Safe (envelope_hash e).
+Proof.
+  unfold envelope_hash. destruct (negb _); [reflexivity|].
+  apply Safe_bind; [apply KDFParameters_unpack_safe|]. intros. apply hash_algorithm_safe.
+Qed.
+Lemma get_kek_safe e kid : env_ok e -> i32 (kid_l0 kid) -> wfb (kid_key_info kid) = true -> Safe (get_kek c e kid).
+Proof.
+  intros [H1 H2] H0 Hw. unfold get_kek. destruct (gke_is_public_key e); [reflexivity|].
+  unfold k_getkek_l0_mismatch. destruct (negb (gke_l0 e =? kid_l0 kid)) eqn:E; [reflexivity|].
+  assert (gke_l0 e = kid_l0 kid) as El0 by lia.
+  apply Safe_bind; [apply envelope_hash_safe|]. intros h.
+  apply Safe_bind; [apply compute_l2_key_safe; [rewrite El0|..]; assumption|]. intros l2_key.
+  destruct (kid_is_public_key kid); [|exact I]. now apply compute_kek_from_public_key_safe.
+Qed.
+
+(* ---- _crypto.py wrappers ---- *)
+Lemma cek_decrypt_safe alg params kek v : Safe (cek_decrypt c alg params kek v).
+Proof. unfold cek_decrypt. destruct (oid_eqb _ _); [apply kw_unwrap_safe|reflexivity]. Qed.
+Lemma gcm_iv_of_parameters_safe params : Safe (gcm_iv_of_parameters params).
+Proof.
+  unfold gcm_iv_of_parameters. destruct (truthy params) as [p|]; [|reflexivity].
+  apply SafeP_Safe with (Q := fun _ => True).
+  eapply SafeP_bind with (R := fun _ => True); [apply (read_sequence_safe p None None)|]. intros [r ?] _.
+  eapply SafeP_bind with (R := fun _ => True); [apply (read_octet_string_safe r None None)|]. intros [iv ?] _. exact I.
+Qed.
+Lemma content_decrypt_safe alg params cek v : Safe (content_decrypt c alg params cek v).
+Proof.
+  unfold content_decrypt. destruct (oid_eqb _ _); [|reflexivity].
+  apply Safe_bind; [apply gcm_iv_of_parameters_safe|]. intros. apply gcm_dec_safe.
+Qed.
+
+(* ---- _decrypt_blob ---- *)
+Lemma decrypt_blob_safe b e : env_ok e -> i32 (kid_l0 (b_key_identifier b)) ->
+  wfb (kid_key_info (b_key_identifier b)) = true -> Safe (decrypt_blob c b e).
+Proof.
+  intros He H0 Hw. unfold decrypt_blob. apply Safe_bind; [now apply get_kek_safe|]. intros kek.
+  apply Safe_bind; [apply cek_decrypt_safe|]. intros cek. apply content_decrypt_safe.
+Qed.
+End WithCrypto.
+
+(* ---- KeyCache ---- *)
+Definition env_okb (e : envelope) : bool := (gke_l1 e <=? 31) && (gke_l2 e <=? 31).
+(* the condition on the cache CONTENTS: every cached seed envelope sits at a position <= (31, 31). Nothing is
+   required of the loaded root keys (unparseable KDF parameters are a ValueError / NotImplementedError) and
+   nothing of the cached L0 or key material (a cached L0 that differs from the blob's is a ValueError). *)
+Definition cache_ok (cache : ccache) : Prop := forallb (fun p => env_okb (snd p)) (cc_seeds cache) = true.
+
+Lemma env_okb_ok e : env_okb e = true <-> env_ok e.
+Proof. unfold env_okb, env_ok. lia. Qed.
+Lemma cc_find_seed_ok l t e : forallb (fun p => env_okb (snd p)) l = true -> cc_find_seed l t = Some e -> env_ok e.
+Proof.
+  induction l as [|[k v] l IH]; cbn [cc_find_seed forallb snd]; [discriminate|].
+  intros H E. apply andb_true_iff in H as [H1 H2]. destruct (ckey_eqb k t).
+  - injection E as <-. now apply env_okb_ok.
+  - now apply IH.
+Qed.
+Lemma cc_set_seed_ok cache t e : cache_ok cache -> env_ok e -> cache_ok (cc_set_seed cache t e).
+Proof.
+  intros H He. unfold cache_ok, cc_set_seed. cbn [cc_seeds forallb snd]. apply andb_true_iff. split; [|exact H].
+  now apply env_okb_ok.
+Qed.
+Lemma cc_store_key_ok cache sd e : cache_ok cache -> env_ok e -> cache_ok (cc_store_key cache sd e).
+Proof.
+  intros H He. unfold cc_store_key. destruct (match cc_find_seed _ _ with Some _ => _ | None => _ end); [|exact H].
+  now apply cc_set_seed_ok.
+Qed.
+Lemma cc_load_ok cache rkid rk : cache_ok cache -> cache_ok (cc_load cache rkid rk).
+Proof. intros H. exact H. Qed.
+Lemma cc_empty_ok : cache_ok cc_empty.
+Proof. reflexivity. Qed.
+
+(* KeyCache._get_key: the L0 guard comes first; what it returns is a covered-position envelope *)
+Lemma cc_get_key_safe c cache sd rkid l0 l1 l2 : cache_ok cache ->
+  SafeP (fun p => cache_ok (snd p) /\ 0 <= l0 <= 2147483647 /\ match fst p with Some e => env_ok e | None => True end)
+        (cc_get_key c cache sd rkid l0 l1 l2).
+Proof.
+  intros Hok. unfold cc_get_key. destruct (k_cache_l0_guard l0) eqn:G; [reflexivity|].
+  assert (Hl0 : 0 <= l0 <= 2147483647).
+  { destruct (Z_le_dec 0 l0) as [A|A]; [destruct (Z_le_dec l0 2147483647) as [B|B]; [lia|]|];
+      exfalso; assert (k_cache_l0_guard l0 = true) by (apply l0_guard_meaning; lia); congruence. }
+  destruct (cc_find_seed (cc_seeds cache) (rkid, sd, l0)) as [e|] eqn:Es.
+  - pose proof (cc_find_seed_ok _ _ _ Hok Es) as He.
+    destruct (k_cache_covers true (gke_l1 e) l1 (gke_l2 e) l2); [cbn [SafeP fst snd]; auto|].
+    destruct (cc_find_root (cc_roots cache) rkid) as [rk|]; [|cbn [SafeP fst snd]; auto].
+    eapply SafeP_bind with (Q := fun _ => True); [apply Safe_SafeP, KDFParameters_unpack_safe|]. intros hn _.
+    eapply SafeP_bind with (Q := fun _ => True); [apply Safe_SafeP, hash_algorithm_safe|]. intros h _.
+    eapply SafeP_bind with (Q := fun _ => True); [apply Safe_SafeP, compute_l1_key_safe; assumption|]. intros l1_seed _.
+    destruct k_cache_root_overwrites; cbn [SafeP fst snd]; [|auto].
+    split; [|split; [assumption|]]; [apply cc_set_seed_ok; [assumption|]|]; unfold env_ok; cbn [gke_l1 gke_l2];
+      unfold k_root_env_l1, k_root_env_l2; lia.
+  - destruct (k_cache_covers false 0 l1 0 l2); [cbn [SafeP fst snd]; auto|].
+    destruct (cc_find_root (cc_roots cache) rkid) as [rk|]; [|cbn [SafeP fst snd]; auto].
+    eapply SafeP_bind with (Q := fun _ => True); [apply Safe_SafeP, KDFParameters_unpack_safe|]. intros hn _.
+    eapply SafeP_bind with (Q := fun _ => True); [apply Safe_SafeP, hash_algorithm_safe|]. intros h _.
+    eapply SafeP_bind with (Q := fun _ => True); [apply Safe_SafeP, compute_l1_key_safe; assumption|]. intros l1_seed _.
+    assert (Hg : forall g, gke_l1 g = k_root_env_l1 -> gke_l2 g = k_root_env_l2 -> env_ok g)
+      by (intros g E1 E2; unfold env_ok; rewrite E1, E2; unfold k_root_env_l1, k_root_env_l2; lia).
+    destruct k_cache_root_overwrites; cbn [SafeP fst snd];
+      (split; [|split; [assumption|]]; [apply cc_set_seed_ok; [assumption|]|]; apply Hg; reflexivity).
+Qed.
+
+(* ---- ncrypt_unprotect_secret, offline ---- *)
+Theorem unprotect_offline_safe c : CryptoLaws c -> forall cache data, wfb data = true -> cache_ok cache ->
+  Safe (fst (unprotect_offline c cache data)) /\ cache_ok (snd (unprotect_offline c cache data)).
+Proof.
+  intros Hc cache data Hw Hok. unfold unprotect_offline.
+  pose proof (blob_unpack_safe data Hw) as Hb. destruct (blob_unpack data) as [b|e]; cbn [SafeP] in Hb; [|auto].
+  pose proof (get_target_sd_safe (b_sid b)) as Hsd. destruct (get_target_sd (b_sid b)) as [sd|e]; [|auto].
+  pose proof (cc_get_key_safe c cache sd (kid_rkid (b_key_identifier b)) (kid_l0 (b_key_identifier b))
+                (kid_l1 (b_key_identifier b)) (kid_l2 (b_key_identifier b)) Hok) as Hg.
+  destruct (cc_get_key _ _ _ _ _ _ _) as [[[rk|] cache1]|e]; cbn [SafeP fst snd] in Hg; [| |auto].
+  - destruct Hg as (Hok1 & Hl0 & He). cbn [fst snd]. split.
+    + apply decrypt_blob_safe; [assumption|assumption|unfold i32; lia|assumption].
+    + destruct (gke_is_public_key rk); [assumption|]. now apply cc_store_key_ok.
+  - destruct Hg as (Hok1 & _ & _). cbn [fst snd]. split; [reflexivity|assumption].
+Qed.
+
+Corollary unprotect_offline_no_fuel_exhaustion c : CryptoLaws c -> forall cache data, wfb data = true -> cache_ok cache ->
+  fst (unprotect_offline c cache data) <> Raise OutOfFuel.
+Proof.
+  intros Hc cache data Hw Hok E. destruct (unprotect_offline_safe c Hc cache data Hw Hok) as [H _].
+  rewrite E in H. discriminate.
+Qed.
+(* ... and none of the internal error classes *)
+Corollary unprotect_offline_no_internal_error c : CryptoLaws c -> forall cache data e, wfb data = true -> cache_ok cache ->
+  fst (unprotect_offline c cache data) = Raise e ->
+  e = ValueError \/ e = NotImplementedError \/ e = NotEnoughData \/ e = InvalidTag \/ e = InvalidUnwrap \/ e = NeedNetwork.
+Proof.
+  intros Hc cache data e Hw Hok E. destruct (unprotect_offline_safe c Hc cache data Hw Hok) as [H _].
+  rewrite E in H. destruct e; cbn in H; try discriminate; tauto.
+Qed.
+
+(* ---- the forms stated in Properties/C05.v ---- *)
+Lemma unprotect_offline_deliberate c : CryptoLaws c -> forall cache data, wfb data = true -> cache_ok cache ->
+  Safe (fst (unprotect_offline c cache data)).
+Proof. intros Hc cache data Hw Hok. apply (unprotect_offline_safe c Hc cache data Hw Hok). Qed.
+Lemma unprotect_offline_cache_ok c : CryptoLaws c -> forall cache data, wfb data = true -> cache_ok cache ->
+  cache_ok (snd (unprotect_offline c cache data)).
+Proof. intros Hc cache data Hw Hok. apply (unprotect_offline_safe c Hc cache data Hw Hok). Qed.
+Lemma cc_load_empty_ok rkid rk : cache_ok (cc_load cc_empty rkid rk).
+Proof. reflexivity. Qed.
+Lemma blob_unpack_deliberate data : wfb data = true -> Safe (blob_unpack data).
+Proof. intros Hw. exact (SafeP_Safe _ _ (blob_unpack_safe data Hw)). Qed.
+Lemma l2_kdf_calls {K : Type} (kdf : K -> Z -> Z -> K) fuel l1 l2 a b k1 k2 r :
+  a <= 31 -> b <= 31 -> (32 <= fuel)%nat ->
+  k_compute_l2_key (counted kdf) fuel l1 l2 a b (k1, 0) (k2, 0) = Ok r ->
+  0 <= snd r <= 63 /\ k_compute_l2_key kdf fuel l1 l2 a b k1 k2 = Ok (fst r).
+Proof.
+  intros Ha Hb Hf E. split; [exact (l2_kdf_calls_bounded kdf fuel l1 l2 a b k1 k2 r Ha Hb Hf E)|].
+  pose proof (counted_same_key kdf fuel l1 l2 a b k1 k2 0 0) as H. now rewrite E in H.
+Qed.
+(* the loops of compute_l2_key end within 32 iterations each whenever the envelope position is <= (31, 31):
+   the result does not depend on the fuel *)
+Lemma l2_fuel_independent {K : Type} (kdf : K -> Z -> Z -> K) f1 f2 l1 l2 a b k1 k2 :
+  a <= 31 -> b <= 31 -> (32 <= f1)%nat -> (32 <= f2)%nat ->
+  k_compute_l2_key kdf f1 l1 l2 a b k1 k2 <> Raise OutOfFuel.
+Proof.
+  intros Ha Hb H1 _ E.
+  pose proof (k_compute_l2_key_inv kdf (fun _ _ => True) ltac:(auto) f1 l1 l2 a b k1 k2 Ha Hb I I H1) as H.
+  rewrite E in H. discriminate.
+Qed.
+
+(* ================= examples (run in Coq) ================= *)
+From Coq Require Import String.
+(* a Crypto record that meets CryptoLaws (the hypothesis of the theorems is satisfiable) *)
+Definition idc : Crypto := {|
+  kdf := fun _ s _ _ _ => s; concat_kdf := fun _ s _ _ => s;
+  kw_wrap := fun _ x => Ok x; kw_unwrap := fun _ w => Ok w;
+  gcm_enc := fun _ _ p => Ok p; gcm_dec := fun _ _ ct => Ok ct;
+  ec_pub := fun _ d => Ok (d, 0); ec_dh := fun _ d Q => Ok [d * fst Q] |}.
+Lemma idc_laws : CryptoLaws idc.
+Proof.
+  constructor; cbn; intros; try congruence; try discriminate.
+  injection H as <-. injection H0 as <-. cbn [fst]. do 2 f_equal. lia.
+Qed.
+
+Definition ex_kdf_params : bytes := match KDFParameters_pack (ascii_str "SHA512"%string) with Ok b => b | Raise _ => [] end.
+Definition ex_rkid : bytes := repeat 5 16%nat.
+Definition ex_rk : root_key :=
+  {| rk_key := repeat 7 64%nat; rk_version := 1; rk_kdf_alg := STR_KDF_ALG; rk_kdf_params := ex_kdf_params;
+     rk_secret_alg := STR_DH; rk_secret_params := None; rk_priv_len := 512; rk_pub_len := 2048 |}.
+Definition ex_cache : ccache := cc_load cc_empty ex_rkid ex_rk.
+Definition ex_sid : pystr := ascii_str "S-1-5-21-1-2-3-500"%string.
+(* a blob made by the model's own protect path under the symbolic crypto (L0 361, L1 31, L2 23) *)
+Definition ex_blob : bytes :=
+  match fst (protect_offline sym ex_cache (repeat 1 32%nat) (repeat 2 12%nat) (repeat 3 32%nat) [104; 105] ex_sid
+               (Some ex_rkid) 1700000000000000000) with Ok b => b | Raise _ => [] end.
+Definition patch (o : nat) (new l : bytes) : bytes := firstn o l ++ new ++ skipn (o + List.length new) l.
+
+Example ex_hyps : wfb ex_blob = true /\ cache_ok ex_cache /\ len ex_blob = 1478.
+Proof. vm_compute. auto. Qed.
+(* the key identifier sits at offset 42: version, "KDSK", flags, L0 (54), L1 (58), L2 (62) *)
+Example ex_outcomes :
+  fst (unprotect_offline sym ex_cache ex_blob) = Ok [104; 105] /\
+  fst (unprotect_offline sym ex_cache (firstn 100 ex_blob)) = Raise NotEnoughData /\
+  fst (unprotect_offline sym cc_empty ex_blob) = Raise NeedNetwork /\
+  fst (unprotect_offline sym ex_cache (patch 54 [0; 0; 0; 128] ex_blob)) = Raise ValueError /\       (* L0 = 2^31: the guard *)
+  fst (unprotect_offline sym ex_cache (patch 54 [255; 255; 255; 255] ex_blob)) = Raise ValueError /\ (* L0 = 2^32-1 *)
+  fst (unprotect_offline sym ex_cache (patch 58 [32; 0; 0; 0] ex_blob)) = Raise ValueError /\        (* L1 = 32 *)
+  fst (unprotect_offline sym ex_cache (patch 62 [255; 255; 255; 255] ex_blob)) = Raise ValueError /\ (* L2 = 2^32-1 *)
+  fst (unprotect_offline sym ex_cache (patch 62 [22; 0; 0; 0] ex_blob)) = Raise InvalidUnwrap /\     (* another key *)
+  fst (unprotect_offline sym ex_cache (patch 4 [2; 0] ex_blob)) = Raise ValueError /\                (* a zero-length INTEGER where the content-type OID is expected *)
+  fst (unprotect_offline sym ex_cache []) = Raise NotEnoughData.
+Proof. vm_compute. repeat split. Qed.
+(* without the L0 guard the first KDF context would be an OverflowError *)
+Example ex_l0_guard_needed : compute_l1_key sym SHA512 [] ex_rkid 2147483648 [] = Raise OverflowError.
+Proof. vm_compute. reflexivity. Qed.
+
+(* cache_ok is needed: a cached seed envelope claiming position L1 = 200 drives the L1 loop past its fuel *)
+Definition ex_sd : bytes := match get_target_sd ex_sid with Ok b => b | Raise _ => [] end.
+Definition ex_env (l1 l2 : Z) : envelope :=
+  {| gke_version := 1; gke_flags := 2; gke_l0 := 361; gke_l1 := l1; gke_l2 := l2; gke_rkid := ex_rkid;
+     gke_kdf_alg := STR_KDF_ALG; gke_kdf_params := ex_kdf_params; gke_secret_alg := STR_DH; gke_secret_params := [];
+     gke_priv_len := 512; gke_pub_len := 2048; gke_domain := []; gke_forest := []; gke_l1_key := repeat 7 64%nat; gke_l2_key := [] |}.
+Definition ex_cache_at (l1 l2 : Z) : ccache := cc_set_seed cc_empty (ex_rkid, ex_sd, 361) (ex_env l1 l2).
+Example ex_cache_ok_needed :
+  fst (unprotect_offline sym (ex_cache_at 200 31) ex_blob) = Raise OutOfFuel /\ ~ cache_ok (ex_cache_at 200 31) /\
+  cache_ok (ex_cache_at 31 31) /\ fst (unprotect_offline sym (ex_cache_at 31 31) ex_blob) = Raise InvalidUnwrap.
+Proof. vm_compute. repeat split; discriminate. Qed.
